@@ -116,14 +116,19 @@ template <> struct kind<2> { using elem = Mo;        using src = Mo; };
 template <> struct kind<3> { using elem = Co;        using src = Co; };
 template <> struct kind<4> { using elem = int&;      using src = int; };
 template <> struct kind<5> { using elem = int const; using src = int; };
+// pair lines only (the tuple and tuple_cat kind lists do not contain them): references to the instrumented class.  Construction
+// binds (no copy, nothing moved from); assignment assigns through to the referent; forward<Trk&>(p.first) is an lvalue.
+template <> struct kind<6> { using elem = Trk&;       using src = Trk; };
+template <> struct kind<7> { using elem = Trk const&; using src = Trk; };
 template <int K> using elem_t = typename kind<K>::elem;
 template <int K> using src_t  = typename kind<K>::src;
+template <int K> inline constexpr bool is_refk = std::is_reference_v<elem_t<K>>; // 4, 6, 7
 
-// initialiser of an element of kind K: the referent for int&, a prvalue otherwise
+// initialiser of an element of kind K: the referent for a reference kind, a prvalue otherwise
 template <int K>
-inline auto arg(src_t<K>& referent, int v) -> std::conditional_t<K == 4, int&, src_t<K>>
+inline auto arg(src_t<K>& referent, int v) -> std::conditional_t<is_refk<K>, src_t<K>&, src_t<K>>
 {
-    if constexpr (K == 4) {
+    if constexpr (is_refk<K>) {
         (void)v;
         return referent;
     } else {
@@ -131,12 +136,15 @@ inline auto arg(src_t<K>& referent, int v) -> std::conditional_t<K == 4, int&, s
         return src_t<K>(v);
     }
 }
-// "rvalue source" of kind K: int& can only be bound to an lvalue
+// "rvalue source" of kind K: a reference element is bound to the lvalue referent
 template <int K, typename S>
-inline auto rv(S& x) -> std::conditional_t<K == 4, S&, S&&>
+inline auto rv(S& x) -> std::conditional_t<is_refk<K>, S&, S&&>
 {
-    if constexpr (K == 4) { return x; } else { return std::move(x); }
+    if constexpr (is_refk<K>) { return x; } else { return std::move(x); }
 }
+// what the result of get<I>(rvalue pair) initialises: an object of the class for a value kind (so that a move is observed);
+// for a reference kind get<I>(move(p)) is the lvalue referent itself, and a reference is bound to it (nothing moved, no copy)
+template <int K> using hold_t = std::conditional_t<is_refk<K>, elem_t<K>, src_t<K>>;
 
 // ---------------------------------------------------------------- call log
 struct Entry {
@@ -276,6 +284,8 @@ inline std::string res(std::string r, std::string a, std::string b)
 namespace part {
 std::string pair_e(Line const& l);
 std::string pair_s(Line const& l);
+std::string pairx_e(Line const& l);   // pair lines with an element kind 6 / 7, and the mixed-kind ops xassign / xmassign
+std::string pairx_s(Line const& l);
 std::string tuple_e0(Line const& l);
 std::string tuple_e1(Line const& l);
 std::string tuple_e2(Line const& l);
@@ -444,7 +454,7 @@ inline std::string pair_op(std::string const& op, std::vector<long long> const& 
     }
     if (op == "swap" || op == "fswap" || op == "selfswap") {
         // (etl::is_nothrow_swappable<T const> is a hard error, so std::is_swappable_v cannot be asked about etl::pair<.., T const>)
-        constexpr bool can_swap = K1 != 5 && K2 != 5;
+        constexpr bool can_swap = K1 != 5 && K2 != 5 && K1 != 7 && K2 != 7;
         static_assert(std::is_swappable_v<std::pair<elem_t<K1>, elem_t<K2>>> == can_swap);
         if constexpr (can_swap) {
             O o(a[0], a[1]), q(b[0], b[1]);
@@ -487,16 +497,16 @@ inline std::string pair_op(std::string const& op, std::vector<long long> const& 
     if (op == "getr") {
         O o(a[0], a[1]);
         g_copies = 0;
-        S1 v0(L::template get<0>(std::move(o.p)));
-        S2 v1(L::template get<1>(std::move(o.p)));
+        hold_t<K1> v0(L::template get<0>(std::move(o.p)));
+        hold_t<K2> v1(L::template get<1>(std::move(o.p)));
         return res(fmt_vals({val(v0), val(v1)}), o.vals(), proto::fmt_list(b));
     }
     if (op == "getcr") {
         if constexpr (K1 != 2 && K2 != 2) {
             O o(a[0], a[1]);
             g_copies = 0;
-            S1 v0(L::template get<0>(std::move(std::as_const(o.p))));
-            S2 v1(L::template get<1>(std::move(std::as_const(o.p))));
+            hold_t<K1> v0(L::template get<0>(std::move(std::as_const(o.p))));
+            hold_t<K2> v1(L::template get<1>(std::move(std::as_const(o.p))));
             return res(fmt_vals({val(v0), val(v1)}), o.vals(), proto::fmt_list(b));
         } else return na;
     }
@@ -511,7 +521,7 @@ inline std::string pair_op(std::string const& op, std::vector<long long> const& 
                 return res(same ? fmt_vals({val(L::template get_t<elem_t<K1>>(o.p)), val(L::template get_t<elem_t<K2>>(o.p))}) : "!alias", o.vals(), proto::fmt_list(b));
             }
             // (libstdc++ 12: std::get<T&>(pair<T&, U>&&) does not compile - it returns std::move(p.first) - so reference kinds are left out)
-            if constexpr (K1 != 4 && K2 != 4) {
+            if constexpr (!is_refk<K1> && !is_refk<K2>) {
                 S1 v0(L::template get_t<elem_t<K1>>(std::move(o.p)));
                 S2 v1(L::template get_t<elem_t<K2>>(std::move(o.p)));
                 return res(fmt_vals({val(v0), val(v1)}), o.vals(), proto::fmt_list(b));
@@ -532,16 +542,104 @@ inline std::string pair_op(std::string const& op, std::vector<long long> const& 
     return "bad-op";
 }
 
+// converting assignment between pairs of different element kinds: pair<KD1,KD2> a; pair<KS1,KS2> b;
+// xassign: a = as_const(b) (operator=(pair<U1,U2> const&)); xmassign: a = move(b) (operator=(pair<U1,U2>&&))
+template <typename L, int KD1, int KD2, int KS1, int KS2>
+inline std::string pair_xop(std::string const& op, std::vector<long long> const& a, std::vector<long long> const& b)
+{
+    using OD = POp<L, KD1, KD2>;
+    using OS = POp<L, KS1, KS2>;
+    using PD = typename OD::P;
+    using PS = typename OS::P;
+    using StdD = std::pair<elem_t<KD1>, elem_t<KD2>>;
+    using StdS = std::pair<elem_t<KS1>, elem_t<KS2>>;
+    auto const na = std::string("n/a");
+    if (op == "xassign") {
+        static_assert(std::is_assignable_v<PD&, PS const&> == std::is_assignable_v<StdD&, StdS const&>);
+        if constexpr (std::is_assignable_v<PD&, PS const&>) {
+            OD o(a[0], a[1]); OS q(b[0], b[1]);
+            g_copies = 0;
+            PD& ret = (o.p = std::as_const(q.p));
+            if (&ret != &o.p) return "!return";
+            return res("-", o.vals(), q.vals());
+        } else return na;
+    }
+    if (op == "xmassign") {
+        static_assert(std::is_assignable_v<PD&, PS&&> == std::is_assignable_v<StdD&, StdS&&>);
+        if constexpr (std::is_assignable_v<PD&, PS&&>) {
+            OD o(a[0], a[1]); OS q(b[0], b[1]);
+            g_copies = 0;
+            PD& ret = (o.p = std::move(q.p));
+            if (&ret != &o.p) return "!return";
+            return res("-", o.vals(), q.vals());
+        } else return na;
+    }
+    return "bad-op";
+}
+// the instantiated (destination kinds, source kinds) of xassign / xmassign: the list XKINDS of checks/props/c20.py
+template <typename L>
+inline std::string pair_xline(std::string const& op, std::vector<long long> const& t, std::vector<long long> const& u,
+                              std::vector<long long> const& a, std::vector<long long> const& b)
+{
+    if (t.size() != 2 || u.size() != 2) return "bad-op";
+    long long const key = t[0] * 1000 + t[1] * 100 + u[0] * 10 + u[1];
+    switch (key) {
+    case 1166: return pair_xop<L, 1, 1, 6, 6>(op, a, b); // pair<Trk,Trk> = pair<Trk&,Trk&>
+    case 6611: return pair_xop<L, 6, 6, 1, 1>(op, a, b); // pair<Trk&,Trk&> = pair<Trk,Trk>
+    case 1177: return pair_xop<L, 1, 1, 7, 7>(op, a, b); // pair<Trk,Trk> = pair<Trk const&,Trk const&>
+    case 6677: return pair_xop<L, 6, 6, 7, 7>(op, a, b); // pair<Trk&,Trk&> = pair<Trk const&,Trk const&>
+    case 6116: return pair_xop<L, 6, 1, 1, 6>(op, a, b); // pair<Trk&,Trk> = pair<Trk,Trk&>
+    case 1666: return pair_xop<L, 1, 6, 6, 6>(op, a, b); // pair<Trk,Trk&> = pair<Trk&,Trk&>  (one element kind in common)
+    case 1617: return pair_xop<L, 1, 6, 1, 7>(op, a, b); // pair<Trk,Trk&> = pair<Trk,Trk const&>
+    case 440:  return pair_xop<L, 0, 4, 4, 0>(op, a, b); // pair<int,int&> = pair<int&,int>
+    case 7111: return pair_xop<L, 7, 1, 1, 1>(op, a, b); // pair<Trk const&,Trk> = ...: not assignable (n/a)
+    case 1116: return pair_xop<L, 1, 1, 1, 6>(op, a, b); // pair<Trk,Trk> = pair<Trk,Trk&>
+    }
+    return "bad-op";
+}
 template <typename L, int K1>
 inline std::string pair_k2(int k2, std::string const& op, std::vector<long long> const& a, std::vector<long long> const& b)
 {
-    switch (k2) {
-    case 0: return pair_op<L, K1, 0>(op, a, b);
-    case 1: return pair_op<L, K1, 1>(op, a, b);
-    case 2: return pair_op<L, K1, 2>(op, a, b);
-    case 3: return pair_op<L, K1, 3>(op, a, b);
-    case 4: return pair_op<L, K1, 4>(op, a, b);
-    case 5: return pair_op<L, K1, 5>(op, a, b);
+    if constexpr (K1 < 6) {
+        switch (k2) {
+        case 0: return pair_op<L, K1, 0>(op, a, b);
+        case 1: return pair_op<L, K1, 1>(op, a, b);
+        case 2: return pair_op<L, K1, 2>(op, a, b);
+        case 3: return pair_op<L, K1, 3>(op, a, b);
+        case 4: return pair_op<L, K1, 4>(op, a, b);
+        case 5: return pair_op<L, K1, 5>(op, a, b);
+        }
+    } else {
+        // kinds 6 / 7 are instantiated with each other and with the partner kinds {0, 1, 4} only (compile time)
+        switch (k2) {
+        case 0: return pair_op<L, K1, 0>(op, a, b);
+        case 1: return pair_op<L, K1, 1>(op, a, b);
+        case 4: return pair_op<L, K1, 4>(op, a, b);
+        case 6: return pair_op<L, K1, 6>(op, a, b);
+        case 7: return pair_op<L, K1, 7>(op, a, b);
+        }
+    }
+    return "bad-op";
+}
+// pair lines of the translation units pairx_e / pairx_s: an element kind 6 / 7, or a mixed-kind op
+template <typename L>
+inline std::string pairx_line(Line const& l)
+{
+    auto const& op = l.str("op");
+    auto const& a  = l.list("a");
+    auto const& b  = l.list("b");
+    auto const& t  = l.list("t");
+    if (a.size() != 2 || b.size() != 2 || t.size() != 2) return "bad-op";
+    if (op == "xassign" || op == "xmassign") return l.has("u") ? pair_xline<L>(op, t, l.list("u"), a, b) : std::string("bad-op");
+    int const k1 = int(t[0]), k2 = int(t[1]);
+    if (k1 == 6) return pair_k2<L, 6>(k2, op, a, b);
+    if (k1 == 7) return pair_k2<L, 7>(k2, op, a, b);
+    if (k2 == 6 || k2 == 7) {
+        switch (k1) {
+        case 0: return k2 == 6 ? pair_op<L, 0, 6>(op, a, b) : pair_op<L, 0, 7>(op, a, b);
+        case 1: return k2 == 6 ? pair_op<L, 1, 6>(op, a, b) : pair_op<L, 1, 7>(op, a, b);
+        case 4: return k2 == 6 ? pair_op<L, 4, 6>(op, a, b) : pair_op<L, 4, 7>(op, a, b);
+        }
     }
     return "bad-op";
 }
@@ -555,6 +653,9 @@ inline std::string pair_line(Line const& l)
     if (op == "cmp") return pair_cmp<L>(l.str("e"), a, b);
     auto const& t = l.list("t");
     if (t.size() != 2) return "bad-op";
+    if (op == "xassign" || op == "xmassign" || t[0] >= 6 || t[1] >= 6) {
+        if constexpr (L::is_etl) return part::pairx_e(l); else return part::pairx_s(l);
+    }
     switch (t[0]) {
     case 0: return pair_k2<L, 0>(int(t[1]), op, a, b);
     case 1: return pair_k2<L, 1>(int(t[1]), op, a, b);
@@ -571,6 +672,12 @@ std::string part::pair_e(Line const& l) { return pair_line<E>(l); }
 #endif
 #if C20_IN(1)
 std::string part::pair_s(Line const& l) { return pair_line<S>(l); }
+#endif
+#if C20_IN(24)
+std::string part::pairx_e(Line const& l) { return pairx_line<E>(l); }
+#endif
+#if C20_IN(25)
+std::string part::pairx_s(Line const& l) { return pairx_line<S>(l); }
 #endif
 
 // ---------------------------------------------------------------- tuple (any list of element kinds, arity 1..3)
